@@ -129,6 +129,11 @@ def run_case(case, ctx):
         detail0 = {'winners': winners, 'winner_kinds': wkinds,
                    'n_branches': [len(st['branches']) for st in blocks],
                    'twice': [st.get('twice') for st in blocks]}
+        # export() is also called on a SuperNet left in training mode (as a search loop leaves it):
+        # the layers outside the choice blocks - BatchNorm statistics included - stay untouched
+        if ci % 4 >= 2:
+            sn.train()
+            ctx.cls('order:export-in-train-mode')
         try:
             exported = sn.export()
             exported.eval()
@@ -136,6 +141,7 @@ def run_case(case, ctx):
             ctx.violation('export-crash', dict(detail0, sig=type(e).__name__ + ':' + '+'.join(
                 sorted(set(wkinds))), exc=repr(e)[:300]))
             continue
+        sn.eval()
         if y_sn is None:
             with torch.no_grad():
                 y_sn = sn(x)
